@@ -9,7 +9,7 @@ from .pyfront import FUNC
 
 
 class Node:
-    __slots__ = ('id', 'kind', 'ast', 'succ', 'pred', 'label')
+    __slots__ = ('id', 'kind', 'ast', 'succ', 'pred', 'label', 'revisit')
 
     def __init__(self, nid, kind, node=None, label=''):
         self.id = nid
@@ -18,6 +18,7 @@ class Node:
         self.succ = []        # [(Node, edge label)]
         self.pred = []
         self.label = label
+        self.revisit = False
 
     def __repr__(self):
         s = norm_src(self.ast).split('\n')[0][:60] if self.ast is not None \
@@ -130,7 +131,12 @@ class CFG:
         if isinstance(st, ast.While):
             head = self._new('stmt', ast.Pass())
             self._link(frontier, head)
+            first_new = len(self.nodes)
             t, f = self._cond(st.test, [(head, '')])
+            # the condition is evaluated again after the body: its test nodes
+            # may be visited twice on an enumerated path (body taken 0 or 1 times)
+            for tn in self.nodes[first_new:]:
+                tn.revisit = True
             after = []
             self._loops.append((head, after))
             body_end = self._seq(st.body, t)
@@ -312,7 +318,8 @@ class CFG:
         out = []
         maxvisit = {}
         for n in self.nodes:
-            maxvisit[n.id] = 2 if (n.kind in ('iter',) or isinstance(n.ast, ast.Pass)) else 1
+            maxvisit[n.id] = 2 if (n.kind in ('iter',) or isinstance(n.ast, ast.Pass)
+                                    or getattr(n, 'revisit', False)) else 1
         targets = {self.exit.id}
         if to_raise:
             targets.add(self.raise_exit.id)
